@@ -681,17 +681,24 @@ impl<C: Config, Q: Query> Snapshot<C, Q> {
                         C::BuildHasher::default(),
                     );
 
-                    lock_guard
-                        .this_computing
-                        .callee_info
-                        .callee_queries
-                        .iter_sync(|k, v| {
-                            if let Some(obs) = v {
-                                hash_map.insert(*k, *obs);
-                            }
+                    // The value of a query that lies on a dependency cycle
+                    // is its cycle default, not a function of what it
+                    // observed. Keep no observation, so that the query is
+                    // executed again as soon as one of its callees has to be
+                    // re-checked.
+                    if !lock_guard.this_computing.is_in_scc() {
+                        lock_guard
+                            .this_computing
+                            .callee_info
+                            .callee_queries
+                            .iter_sync(|k, v| {
+                                if let Some(obs) = v {
+                                    hash_map.insert(*k, *obs);
+                                }
 
-                            true
-                        });
+                                true
+                            });
+                    }
 
                     hash_map
                 },
